@@ -101,6 +101,14 @@ func InvokeThriftgo(SDKPlugins []plugin.SDKPlugin, args ...string) (err error) {
 		return fmt.Errorf("No output language(s) specified")
 	}
 
+	// every -g entry is checked before anything is generated, so that an unknown
+	// language does not leave the output of the entries before it on disk
+	for _, out := range langs {
+		if g.GetBackend(out.Language) == nil {
+			return fmt.Errorf("No generator for language '%s'.", out.Language)
+		}
+	}
+
 	for _, out := range langs {
 		out.UsedPlugins = plugins
 		out.SDKPlugins = SDKPlugins
